@@ -73,7 +73,7 @@ def gen_scaled(rng):
     else:
         s = gen.pick(rng, [0.5, 1., 2., 3.]); mn = mx = s
     sc = {'type': 'ScaledAsset', 'name': 'SC', 'base': b, 'min_scale': mn, 'max_scale': mx, 'norm_scale': norm,
-          'fix_costs': gen.r2(gen.pick(rng, [0., 0.05, 0.5]) * f), 'wacc': 0.,
+          'fix_costs': gen.r2(gen.pick(rng, [0., 0.05, 0.5]) * f), 'wacc': gen.pick(rng, [0., 0., 0.5, 2.]),
           'start': b.get('start') if rng.random() < 0.7 else None, 'end': b.get('end') if rng.random() < 0.7 else None}
     if (sc['start'] is None) != (b.get('start') is None) or (sc['end'] is None) != (b.get('end') is None):
         # keep 'active duration' unambiguous: wrapper window = base window, or neither has one
